@@ -124,7 +124,7 @@ Level2(x) ==
   \cup {N("offset2", <<Off(x, o)>>, <<x>>) : o \in {-1, 1, 2}}
   \cup {N("cut2", <<a[1], a[2], Dirs2[v][1], Dirs2[v][2]>>, <<x>>) : a \in {<<0, 0>>, <<1, -1>>}, v \in 1..8}
   \cup {N("elong2", h, <<x>>) : h \in {<<1, 0>>, <<0, 2>>, <<1, 1>>}}
-  \cup {N("array2", a, <<x>>) : a \in {<<2, 1, 3, 0>>, <<1, 3, 0, -2>>, <<2, 2, 4, 3>>, <<3, 1, -2, 1>>}}
+  \cup {N("array2", a, <<x>>) : a \in {<<2, 1, 3, 0>>, <<1, 3, 0, -2>>, <<2, 2, 4, 3>>, <<3, 1, -2, 1>>, <<5, 1, 1, 0>>, <<1, 4, 0, -1>>}}
   \cup {N("rotcopy2", <<n>>, <<x>>) : n \in {1, 2, 4}}
   \cup {N(o, <<>>, <<x, Leaves2[y]>>) : o \in {"union2", "diff2", "inter2"}, y \in {2, 5, 9, 16}}
   \cup {N(o, <<>>, <<Leaves2[y], x>>) : o \in {"diff2", "inter2"}, y \in {4, 12}}
@@ -146,7 +146,7 @@ Level3(x) ==
   \cup {N("shell3", <<1>>, <<x>>)}
   \cup {N("cut3", <<0, 1, 0, Dirs3[v][1], Dirs3[v][2], Dirs3[v][3]>>, <<x>>) : v \in 1..10}
   \cup {N("elong3", h, <<x>>) : h \in {<<1, 0, 0>>, <<0, 1, 1>>}}
-  \cup {N("array3", a, <<x>>) : a \in {<<2, 1, 1, 3, 0, 0>>, <<1, 2, 2, 0, -3, 2>>}}
+  \cup {N("array3", a, <<x>>) : a \in {<<2, 1, 1, 3, 0, 0>>, <<1, 2, 2, 0, -3, 2>>, <<5, 1, 1, 1, 0, 0>>, <<1, 1, 4, 0, 0, -1>>}}
   \cup {N("rotcopy3", <<n>>, <<x>>) : n \in {1, 2, 4}}
   \cup {N(o, <<>>, <<x, Leaves3[y]>>) : o \in {"union3", "diff3", "inter3"}, y \in {2, 4, 13}}
 \* 3D constructors over a 2D operand
